@@ -97,6 +97,7 @@ fn enum_from(
 
     quote! {
         #[allow(deprecated)] // omit warnings on deprecated fields/variants
+        #[allow(unreachable_code)] // omit warnings for enums without variants
         #[automatically_derived]
         impl #impl_generics #trait_path for #input_type #ty_generics #where_clause {
             type Err = derive_more::FromStrError;
